@@ -34,6 +34,7 @@ PROPS['C15'] = dict(
     trace=dict(module='Trace_TailBitmap', cfg='Trace_TailBitmap.cfg'),
     mc=dict(quick=[mc('MC_TailBitmap', 'MC_TailBitmap_q.cfg', expect_min_distinct=10000)],
             thorough=[mc('MC_TailBitmap', 'MC_TailBitmap.cfg', expect_min_distinct=300000)]),
+    tlaps=dict(quick=[dict(module='TailBitmapProof')], thorough=[dict(module='TailBitmapProof', refute='TailBitmapProofBad')]),
     need_kinds=['tb'],
     apalache=dict(quick=[dict(module='TailBitmapInd', cinit='CInitQ', runs=[('Init', 'IndInv', 0), ('IndInit', 'IndInv', 1), ('IndInit', 'Property', 0)],
                               refute=[('IndInit', 'BadNeverMoves', 1)])],
